@@ -7,10 +7,10 @@
 #include <string.h>
 #include <sys/wait.h>
 
-enum { E_CODE, E_SIG, E_LIBTERM, E_HANDLER, E_IGNORE };
+enum { E_CODE, E_SIG, E_LIBTERM, E_HANDLER, E_IGNORE, E_HUP_FIRST };
 static const int term_sigs[] = { 1, 2, 3, 4, 5, 6, 7, 8, 9, 10, 11, 12, 13, 14, 15, 16, 24, 25, 26, 27, 29, 30, 31 };
 #define NSIGS ((int) (sizeof term_sigs / sizeof term_sigs[0]))
-#define NENDINGS (256 + NSIGS + 3)
+#define NENDINGS (256 + NSIGS + 4)
 
 struct ending {
   int kind, v;
@@ -26,8 +26,8 @@ static struct ending ending_of(int i)
 }
 
 static const int rep_endings[] = { 0, 1, 255, 256 + 14 /* SIGTERM */, 256 + 8 /* SIGKILL */, 256 + 5 /* SIGABRT */,
-                                   256 + NSIGS, 256 + NSIGS + 1, 256 + NSIGS + 2 };
-#define NREP 9
+                                   256 + NSIGS, 256 + NSIGS + 1, 256 + NSIGS + 2, 256 + NSIGS + 3 };
+#define NREP 10
 
 enum { OP_WAIT0, OP_WAIT2, OP_WAITINF, OP_TERM, OP_KILL, OP_STOP_W0, OP_STOP_T1_KINF, OP_STOP_KINF, NOPS };
 static const char *const op_names[] = { "wait0", "wait2", "waitinf", "term", "kill", "stop{w0}", "stop{t1,kinf}", "stop{kinf}" };
@@ -140,7 +140,8 @@ static void c01_run(int tier, long cfg)
     case E_SIG: snprintf(es, sizeof es, "sig%d", en.v); break;
     case E_LIBTERM: snprintf(es, sizeof es, "dies-on-term"); break;
     case E_HANDLER: snprintf(es, sizeof es, "term-handler-then-dies"); break;
-    default: snprintf(es, sizeof es, "ignores-term");
+    case E_IGNORE: snprintf(es, sizeof es, "ignores-term"); break;
+    default: snprintf(es, sizeof es, "descriptors-close-before-it-is-waitable");
   }
   hx_desc("h_c01|ending=%s|hist=%s", es, hs);
   hx_begin();
@@ -152,6 +153,7 @@ static void c01_run(int tier, long cfg)
     case E_LIBTERM: break;
     case E_HANDLER: snprintf(script, sizeof script, "S15:H ; T15"); break;
     case E_IGNORE: snprintf(script, sizeof script, "S15:I ;"); break;
+    case E_HUP_FIRST: snprintf(script, sizeof script, "Z X9"); break; /* the window every exiting process goes through, made wide */
   }
   vk_script(script);
   P = hx_new();
@@ -222,7 +224,7 @@ static void c01_run(int tier, long cfg)
   int w = waitid(P_PID, (id_t) CH->pid, &si, WEXITED | WNOHANG | WNOWAIT);
   if (!(w < 0 && errno == ECHILD)) vk_violation("C01", "no-zombie", "h_c01", "the child is still waitable after the status was returned");
   if (vk_bad_waits) vk_violation("C01", "second-reap", "h_c01", "%d waitpid call(s) on an already reaped or foreign pid", vk_bad_waits);
-  if (vk_reap_blocked) vk_violation("C01", "reap-blocked", "h_c01", "a blocking reap was attempted while the child was still running");
+  if (vk_reap_blocked && en.kind != E_HUP_FIRST) vk_violation("C01", "reap-blocked", "h_c01", "a blocking reap was attempted while the child was still running");
   /* C06 clauses over the same histories */
   if (vk_bad_kills || vk_bad_waits)
     vk_violation("C06", "kill-wait-target", "h_c01", "%d kill and %d waitpid call(s) targeted something other than the live, unreaped child of the handle",
